@@ -155,6 +155,9 @@ func (u *Unit) loopHeader(fc *frameCtx, fi *fnInfo, li *loopInfo, st *State, pc 
 	fc.loops = append(fc.loops, al)
 	// 3. havoc
 	u.havoc(st, pc, fr)
+	if u.loopLogs(li) {
+		u.logHavoc(st, pc)
+	}
 	newVals := map[*ssa.Phi]*SV{}
 	for _, p := range phis {
 		nv := u.freshSV(phiHint(p), p.Type(), st, pc)
@@ -516,6 +519,9 @@ func (u *Unit) callMayWrite(call *ssa.CallCommon) bool {
 	if call.IsInvoke() {
 		name = methodKey(call.Method)
 		pkg = call.Method.Pkg()
+		if v, ok := clientVerbs[name]; ok {
+			return !(v == "Delete" || v == "DeleteAllOf" || v == "")
+		}
 	} else if f := call.StaticCallee(); f != nil {
 		name = f.String()
 		if f.Origin() != nil {
@@ -550,4 +556,29 @@ func (u *Unit) callMayWrite(call *ssa.CallCommon) bool {
 		return false
 	}
 	return true
+}
+
+// loopLogs: does the loop body contain an API call or a call to a function whose contract declares 'logs'?
+func (u *Unit) loopLogs(li *loopInfo) bool {
+	for b := range li.blocks {
+		for _, in := range b.Instrs {
+			call, ok := in.(*ssa.Call)
+			if !ok {
+				continue
+			}
+			cc := call.Common()
+			if cc.IsInvoke() {
+				if _, ok := clientVerbs[methodKey(cc.Method)]; ok {
+					return true
+				}
+				continue
+			}
+			if f := cc.StaticCallee(); f != nil {
+				if con := u.e.contracts[f.String()]; con != nil && (con.Logs || con.ModAny) {
+					return true
+				}
+			}
+		}
+	}
+	return false
 }
